@@ -48,7 +48,10 @@ def teardown(chk):
             chk.monitor_fail("runtime teardown with live handles (%s): %s of %s runs hung" % (c.split()[1], f["hangs"], f["runs"]),
                              dict(case=c, impl=a), cls="teardown-hang")
         if int(f.get("rebind_failures", 0)) > 0:
-            chk.monitor_fail("socket address not re-bindable right after shutdown in %s runs" % f["rebind_failures"], dict(case=c, impl=a))
+            chk.monitor_fail("socket address still bound 1.5 s after shutdown returned, with the handle alive, in %s of %s runs" % (f["rebind_failures"], f["runs"]), dict(case=c, impl=a))
+        if int(f.get("rebind_transient", 0)) > 0:
+            chk.monitor_fail("socket address not re-bindable at once after shutdown (free a moment later) in %s of %s runs" % (f["rebind_transient"], f["runs"]), dict(case=c, impl=a), cls="rebind-transient-after-idle-bound")
+        chk.count("rebind-transient", int(f.get("rebind_transient", 0)))
 
 
 replay = __import__("c_c09").replay
